@@ -149,6 +149,8 @@ type Spec struct {
 	// surrounding blanks and a trailing slash, like a storage backed by a case-insensitive
 	// collation would: the IdP must then itself insist on Issuer == entityID.
 	LenientLookup bool `json:"lenient_lookup,omitempty"`
+	// KeysPerIssuer: the storage keeps one response-signing key per issuer (tenant) and picks it by the issuer in the context
+	KeysPerIssuer bool `json:"keys_per_issuer,omitempty"`
 }
 
 // MetadataXML renders the SP metadata through the harness's own writer.
